@@ -24,6 +24,11 @@ Case kinds (each replayable through execute):
   bed12  (case["deep"]) single-isoform genes: bed12(gene) whose block / thick features are level-2 children
          (gene > transcript > exon/CDS), and bed12(transcript) with CDS / UTR / exons attached through an intermediate
          feature (transcript > protein > CDS)
+  bed12  (case["dup"]) transcripts some of whose exon (and CDS) records are written two or three times: byte-identical
+         lines without an ID of their own (stored as exon_1 / exon_2) or equal coordinates under distinct IDs (GTF:
+         exon_id); one block per stored block feature
+  bed12  (case["reach"]) transcripts whose exons span them exactly while CDS / UTR records reach past the transcript's
+         start, end or both: thickStart/thickEnd from the thick features; with the thin choice the other ten fields
   bed12  GFF3 / GTF database of transcripts with 0-6 exons, 0-4 CDS, UTRs; the real FeatureDB.bed12 (id and Feature,
          block/thick/thin/name_field/color choices) and convert.to_bed12 vs the field model in gvmon/models/c18.py
 """
@@ -47,7 +52,12 @@ RULE = ("seq: references of 2-4 sequences of 1-3000 bases over ACGTN + IUPAC amb
         "inside coding_exon, UTR over exon), 2-4 calls each with block in {name, [name], [name, containing name], names "
         "of two or three families} x thick {equal, subset, disjoint, the containing/contained name, overlapping} each as "
         "str or list; seqtwin: 2-4 records of 1-400 bases, twin = reordered / 1-3 bases changed / 1-5 bases moved "
-        "between records at equal file size, 3-7 calls alternating between the two paths")
+        "between records at equal file size, 3-7 calls alternating between the two paths; "
+        "dup: 1-3 transcripts (GFF3 / GTF) with >= 1 exon, 1-2 exon records and (40%) one CDS record repeated once or twice, "
+        "65% as byte-identical lines without ID, 35% with one ID (GTF: exon_id) per copy, lines shuffled in half of the "
+        "cases, 1-3 calls each (bed12 by id / Feature, to_bed12); reach: 1-3 spanning transcripts with CDS, first CDS "
+        "start moved 1-300 before the transcript start and / or last CDS end 1-300 after its end (stop codon moved along), "
+        "and / or a UTR record before / after it, thick in {CDS, [CDS], [CDS, stop_codon]} or the thin choices")
 REQUIRED = ["len(feature) checked", "sequence() by other spellings of the path compared", "sequence() by path compared", "sequence() by pyfaidx.Fasta object compared",
             "sequence() minus strand reverse-complemented", "sequence() minus strand with use_strand=False",
             "sequence(): features from a database", "bed12 calls by id", "bed12 calls by Feature", "bed12 lines compared",
@@ -77,14 +87,31 @@ REQUIRED = ["len(feature) checked", "sequence() by other spellings of the path c
             "bed12 substring names: blocks judged while a child of a containing/contained type name is present",
             "bed12 substring names: thick range judged while a child of a containing/contained type name is present",
             "bed12 substring names: str block name contained in / containing the str or listed thick name",
-            "bed12 substring names: ValueError expected and raised"]
+            "bed12 substring names: ValueError expected and raised",
+            "bed12 duplicated records: lines with byte-identical block records compared",
+            "bed12 duplicated records: lines with equal-coordinate blocks under distinct IDs compared",
+            "bed12 duplicated records: lines compared, fmt=gff3", "bed12 duplicated records: lines compared, fmt=gtf",
+            "bed12 duplicated records: thick range judged with a duplicated thick record",
+            "bed12 duplicated records: to_bed12 lines compared",
+            "bed12 reach: thickStart judged for a thick feature starting before the transcript",
+            "bed12 reach: thickEnd judged for a thick feature ending after the transcript",
+            "bed12 reach: lines compared, fmt=gff3", "bed12 reach: lines compared, fmt=gtf",
+            "bed12 reach: thin features reaching past the transcript (thickStart/thickEnd not judged, other fields judged)"]
 
 REQUIRED_CLASSES = ["bed12 substring names layout=flat", "bed12 substring names layout=nested", "seqtwin order",
                     "seqtwin bases", "seqtwin move", "bed12 deep target=gene", "bed12 deep target=transcript via intermediate", "bed12 deep fmt=gtf",
+                    "bed12 duplicated records fmt=gff3", "bed12 duplicated records fmt=gtf",
+                    "bed12 thick/thin past the transcript fmt=gff3", "bed12 thick/thin past the transcript fmt=gtf",
+                    "bed12 dup: identical", "bed12 dup: distinct", "bed12 reach: CDS start", "bed12 reach: CDS end",
+                    "bed12 reach: UTR start", "bed12 reach: UTR end",
                     "seqobj as_raw=True", "seqobj as_raw=False", "single block by id", "bed12 fmt=gff3", "bed12 fmt=gtf", "blocks=0", "blocks=1", "blocks>=2", "non-spanning", "strand -", "strand +"]
 ASSUMPTIONS = [
-    "'ascending order' = by start; children selected as blocks or thick features never share a start (tie order is not "
-    "stated) and are disjoint or abutting",
+    "'ascending order' = by start; children selected as blocks or thick features share a start only when they also share "
+    "the end (duplicated records: interchangeable in every field, 'one block per block feature' gives each its own "
+    "entry); otherwise they never share a start (tie order is not stated) and are disjoint or abutting",
+    "thick features may lie outside the transcript (a CDS / UTR record reaching past its start or end): thickStart = "
+    "start-1 of the first, thickEnd = end of the last thick feature as stated, whatever the transcript's extent; a stop "
+    "codon selected together with the CDS ends where the CDS ends",
     "thickStart/thickEnd are judged only when at least one thick feature exists (statement: 'when present'); with the "
     "thin_featuretype choice or no thick child the two fields are not judged; calls giving neither thick nor thin "
     "featuretype are not generated (the real code raises UnboundLocalError there)",
